@@ -14,6 +14,9 @@ model_post = ruleslib.model_post
 def known_finding(case, kind, detail):
     d = str(detail)
     rule, cfg = case["rule"], case["cfg"]
+    if rule in ruleslib.RANK_RULES and "Err(EType)" in d and any(b.get("r") and b.get("s") for b in case["profile"]["ballots"]) \
+            and not (rule == "PluralityVeto" and cfg.get("tiebreak") in ("borda", "first_place")):
+        return "ranking-rule-mixed-ballot-typeerror"
     if rule == "Alaska" and "Err(EKey)" in d:
         return "alaska-replay-redraw"
     if "Err(EIndex)" in d and rule in ("STV", "SequentialRCV", "Alaska", "IRV") and (cfg.get("quota") == "hare" or rule in ("SequentialRCV",)):
@@ -49,6 +52,16 @@ def gen_cases(rng, tier):
         if m is not None and m < 1:
             continue
         out.append(c)
+    # ranked ballots that also carry scores (Ballot allows both; every ranking rule accepts them)
+    for c in out:
+        if c["rule"] in ruleslib.RANK_RULES and rng.random() < 0.06:
+            names = sorted({x for b in c["profile"]["ballots"] for g in (b.get("r") or []) for x in g} | set(c["profile"].get("cands") or []))
+            if not names:
+                continue
+            for b in c["profile"]["ballots"]:
+                if b.get("r") and not b.get("s") and rng.random() < 0.5:
+                    b["s"] = {x: rng.choice(["1", "2", "1/2"]) for x in rng.sample(names, rng.randint(1, len(names)))}
+            c["family"] = "mixed-ballot"
     # keep the slow non-terminating PluralityVeto runs to a handful in the quick tier
     pv = [c for c in out if c["rule"] == "PluralityVeto"]
     keep = 12 if tier == "quick" else 150
